@@ -14,6 +14,20 @@ NOTE_COMMON = (
 )
 
 CHECKS = {
+    "C02": dict(
+        technique="Lean 4: kernel-decided obligation over the regenerated unit table against a hand-written reference + general homomorphism theorems for expression evaluation + correspondence",
+        text="Proof: (a) the unit table and prefix table are regenerated from /repo on every run and the Lean kernel decides (decide +kernel, at exact "
+             "rationals of the stored doubles) that every row lies within the tolerance class of an independent hand-written definition (SI brochure, "
+             "NIST SP 811, CODATA, IAU), has the reference dimension/offset, and that the prefix table is the SI table; (b) general theorems, for "
+             "every table and any field with lawful rational powers: a prefixed look-up is prefix x base, a table key wins over a prefix reading, the "
+             "write-back of derived entries never changes what any string resolves to, Unit(expr) computes the denotation of the expression, the "
+             "denotation is a homomorphism for product / rational power and invariant under canonicalisation, unit arithmetic keeps (scale, dimension) "
+             "in sync with the expression, and .to() multiplies by the ratio of scales. Tied to the code by the regenerated table, by dump opcodes, and by "
+             "running Unit(...) in the model and in unyt on names and generated compounds; the direct oracle recomputes every compound from its constituents.",
+        design_ref="§5 C02",
+        note=NOTE_COMMON + " Rows nmi, kt, mp, Tsun, Mearth are outside their class on the unchanged tree (known findings; literal exclusion list with a "
+             "kernel-checked counterexample theorem). `lat` has a negative scale, so the power-law theorems (positivity hypothesis) do not cover lat**q.",
+    ),
     "C05": dict(
         technique="Lean 4 theorems (commutativity, associativity, identity, inverse, power laws, homomorphism, equality criterion over any field with lawful rational powers) + correspondence of Unit.__mul__/__truediv__/__pow__/__eq__ with the model",
         text="Proof: the algebraic laws of unit multiplication/division/rational powers, including the offset and logarithmic guards as explicit "
